@@ -23,7 +23,27 @@ const (
 )
 
 // Retained remembers a string returned by Vector() together with a clone taken at that moment.
-type Retained struct{ Orig, Clone string }
+type Retained struct {
+	Orig, Clone string
+	Err         error // when set, the retained thing is an error value whose message must stay Clone
+}
+
+// Now returns what the retained string / error message reads now.
+func (r Retained) Now() string {
+	if r.Err != nil {
+		return r.Err.Error()
+	}
+	return r.Orig
+}
+
+func keepErr(keep *[]Retained, err error) string {
+	if err == nil {
+		return "<nil>"
+	}
+	msg := strings.Clone(err.Error())
+	*keep = append(*keep, Retained{Clone: msg, Err: err})
+	return fmt.Sprintf("%T:%s", err, msg)
+}
 
 type Body struct {
 	Name string
@@ -50,7 +70,7 @@ func res20(o *gocvss20.CVSS20, err error, keep *[]Retained) string {
 		return "err:" + err.Error()
 	}
 	v := o.Vector()
-	*keep = append(*keep, Retained{v, strings.Clone(v)})
+	*keep = append(*keep, Retained{Orig: v, Clone: strings.Clone(v)})
 	return fmt.Sprintf("ok:%s b=%v t=%v e=%v", v, o.BaseScore(), o.TemporalScore(), o.EnvironmentalScore())
 }
 
@@ -69,9 +89,11 @@ var Bodies = []Body{
 	{"v2.Parse(bad value mid-way)", p20("AV:N/AC:M/Au:S/C:P/I:C/A:N/E:POC/RL:BAD/RC:UR/CDP:MH/TD:M/CR:H/IR:L/AR:ND")},
 	{"v2.Parse(order error)", p20("AV:N/AC:M/C:P/Au:S/I:C/A:N")},
 	{"v2.Parse(empty)", p20("")},
+	{"v2.Parse(5 elements + trailing slash)", p20("AV:L/AC:H/Au:M/C:P/I:P/")},
+	{"v2.Parse(13 elements + trailing slash)", p20("AV:L/AC:H/Au:M/C:N/I:N/A:P/E:F/RL:W/RC:UR/CDP:L/TD:L/CR:L/IR:L/")},
 	{"v2.shared.Vector+scores", func(keep *[]Retained) string {
 		v := shared20.Vector()
-		*keep = append(*keep, Retained{v, strings.Clone(v)})
+		*keep = append(*keep, Retained{Orig: v, Clone: strings.Clone(v)})
 		g, _ := shared20.Get("RL")
 		return fmt.Sprintf("%s %v %v %v %s", v, shared20.BaseScore(), shared20.TemporalScore(), shared20.EnvironmentalScore(), g)
 	}},
@@ -80,7 +102,7 @@ var Bodies = []Body{
 		e1 := o.Set("TD", "H")
 		e2 := o.Set("E", "bogus")
 		v := o.Vector()
-		*keep = append(*keep, Retained{v, strings.Clone(v)})
+		*keep = append(*keep, Retained{Orig: v, Clone: strings.Clone(v)})
 		return fmt.Sprintf("%s %v %v", v, e1, e2)
 	}},
 	{"v3.1.Parse+Vector+scores", func(keep *[]Retained) string {
@@ -89,7 +111,7 @@ var Bodies = []Body{
 			return "err:" + err.Error()
 		}
 		v := o.Vector()
-		*keep = append(*keep, Retained{v, strings.Clone(v)})
+		*keep = append(*keep, Retained{Orig: v, Clone: strings.Clone(v)})
 		return fmt.Sprintf("%s %v %v %v", v, o.BaseScore(), o.TemporalScore(), o.EnvironmentalScore())
 	}},
 	{"v3.0.Parse(error)", func(keep *[]Retained) string {
@@ -102,14 +124,58 @@ var Bodies = []Body{
 			return "err:" + err.Error()
 		}
 		v := o.Vector()
-		*keep = append(*keep, Retained{v, strings.Clone(v)})
+		*keep = append(*keep, Retained{Orig: v, Clone: strings.Clone(v)})
 		return fmt.Sprintf("%s %v %s", v, o.Score(), o.Nomenclature())
 	}},
 	{"shared.v3.1+v4.Vector+scores", func(keep *[]Retained) string {
 		v1, v2 := shared31.Vector(), shared40.Vector()
-		*keep = append(*keep, Retained{v1, strings.Clone(v1)}, Retained{v2, strings.Clone(v2)})
+		*keep = append(*keep, Retained{Orig: v1, Clone: strings.Clone(v1)}, Retained{Orig: v2, Clone: strings.Clone(v2)})
 		return fmt.Sprintf("%s %v %s %v", v1, shared31.EnvironmentalScore(), v2, shared40.Score())
 	}},
+}
+
+func init() {
+	Bodies = append(Bodies,
+		Body{"v3.1.Parse(unknown FOO)+Get(unknown)", func(keep *[]Retained) string {
+			_, e1 := gocvss31.ParseVector("CVSS:3.1/AV:N/AC:L/PR:N/UI:R/S:C/C:H/I:L/A:N/FOO:X")
+			_, e2 := shared31.Get("Zz")
+			return keepErr(keep, e1) + " " + keepErr(keep, e2)
+		}},
+		Body{"v3.1.Parse(unknown BAR, duplicate, missing)", func(keep *[]Retained) string {
+			_, e1 := gocvss31.ParseVector("CVSS:3.1/BAR:N/AV:N")
+			_, e2 := gocvss31.ParseVector("CVSS:3.1/AV:N/AC:L/AC:H")
+			_, e3 := gocvss31.ParseVector("CVSS:3.1/AV:N/AC:L/PR:N/UI:R/S:C/C:H/I:L")
+			return keepErr(keep, e1) + " " + keepErr(keep, e2) + " " + keepErr(keep, e3)
+		}},
+		Body{"v4+v3.1+v3.0 other vectors: Parse+Vector", func(keep *[]Retained) string {
+			o4, e4 := gocvss40.ParseVector("CVSS:4.0/AV:P/AC:H/AT:P/PR:H/UI:A/VC:L/VI:N/VA:L/SC:L/SI:L/SA:N")
+			o31, e31 := gocvss31.ParseVector("CVSS:3.1/AV:P/AC:H/PR:H/UI:N/S:U/C:L/I:N/A:L")
+			o30, e30 := gocvss30.ParseVector("CVSS:3.0/AV:L/AC:H/PR:L/UI:R/S:C/C:N/I:H/A:L/RC:U/MS:U")
+			if e4 != nil || e31 != nil || e30 != nil {
+				return fmt.Sprint("err:", e4, e31, e30)
+			}
+			v4, v31, v30 := o4.Vector(), o31.Vector(), o30.Vector()
+			*keep = append(*keep, Retained{Orig: v4, Clone: strings.Clone(v4)}, Retained{Orig: v31, Clone: strings.Clone(v31)}, Retained{Orig: v30, Clone: strings.Clone(v30)})
+			return v4 + " " + v31 + " " + v30
+		}},
+		Body{"v3.0/v4/v2 unknown-abbreviation errors", func(keep *[]Retained) string {
+			_, e1 := gocvss30.ParseVector("CVSS:3.0/QUX:N")
+			o4 := shared40
+			e2 := o4.Set("Nope", "N")
+			_, e3 := shared20.Get("Other")
+			o2 := shared20
+			e4 := o2.Set("av", "N")
+			return keepErr(keep, e1) + " " + keepErr(keep, e2) + " " + keepErr(keep, e3) + " " + keepErr(keep, e4)
+		}},
+		Body{"v3.0/v4/v2 unknown-abbreviation errors (other names)", func(keep *[]Retained) string {
+			_, e1 := gocvss30.ParseVector("CVSS:3.0/AV:N/WHO:N")
+			o4 := shared40
+			e2 := o4.Set("MZZ", "N")
+			_, e3 := shared40.Get("Q")
+			_, e4 := shared20.Get("AU")
+			return keepErr(keep, e1) + " " + keepErr(keep, e2) + " " + keepErr(keep, e3) + " " + keepErr(keep, e4)
+		}},
+	)
 }
 
 // SharedUnchanged reports whether the shared read-only objects still hold their initial values.
